@@ -40,6 +40,11 @@ type Sched struct {
 	Watchdog time.Duration
 	disabled bool
 	wg       sync.WaitGroup
+	// Strict: a decision point is reached only when EVERY live task is parked (or finished).
+	// Use it when tasks never block on each other: then one released operation has fully
+	// completed (including its After hook / model update) before the next one is released.
+	// Without it a task that is blocked on a lock held by a parked task counts as settled.
+	Strict bool
 }
 
 // New creates a scheduler.
@@ -155,6 +160,10 @@ func (s *Sched) settle() (parkedN, live int) {
 			stable = 0
 		}
 		lastP, lastL = p, l
+		if s.Strict {
+			time.Sleep(200 * time.Microsecond)
+			continue
+		}
 		if stable >= 4 && p > 0 {
 			// some task neither parked nor finished: accept if it is blocked on a lock
 			if blockedCount() >= l-p {
